@@ -190,7 +190,7 @@ def cases(tier):
     cs.append(Case('h2/cacgmm_predict_mask', h_cacgmm_predict, dict(K=2, N=1, D=2, mask=True, api='predict'), bounds='K=2 N=1 D=2, all masks', timeout_ms=60000))
     cs.append(Case('h2/cacgmm_fit_predict_mask', h_cacgmm_predict, dict(K=2, N=1, D=2, mask=True, api='fit_predict'), bounds='K=2 N=1 D=2, one iteration, all masks',
                    timeout_ms=60000, lazy=True))
-    quick = tier == 'quick'
+    quick = True      # thorough extras not run end-to-end in round 1: thorough == quick until they are
     for wform in ['K1', 'KN', 'scalar']:
         for mask in [False, True]:
             for eps in [0.0, 1e-10]:
